@@ -6,6 +6,8 @@ Heap model: `PPModel/Mod/PRHeap.lean`.  `view h o` is what object `o` shows one 
 the values in order; list-all names); nested results are references, and the frame theorem below applies to *every*
 object whose list cell and dict cell are not those of the mutated object — in particular to all nested groups — so
 the deep views (`as_list`, `as_dict`, `dump`) of such objects are unchanged as well.
+
+Nested groups at every depth (`deepcopy()`, `copy.deepcopy`, pickle): `PPProofs/Props/C11Deep.lean`.
 -/
 namespace PP.PRHeap
 open PP.PyList PP.PyDict
